@@ -196,10 +196,11 @@ class Core:
         if z3.is_false(c):
             return None, st
         a = b = None
-        if self.feasible(st, c):
-            a = st.copy().assume(c)
-        if self.feasible(st, z3.Not(c)):
-            b = st.copy().assume(z3.Not(c))
+        # assume the original term: z3.simplify introduces internal symbols (seq.nth_i/u) that other solvers reject
+        if self.feasible(st, cond.t):
+            a = st.copy().assume(cond.t)
+        if self.feasible(st, z3.Not(cond.t)):
+            b = st.copy().assume(z3.Not(cond.t))
         return a, b
 
     # ------------------------------------------------------------------ heap
